@@ -213,7 +213,7 @@ func runWorld(t *testing.T, w exWorld, genesis uint32, only []exStep) *exRun {
 	}
 	budget := 1000
 	if evid.Thorough() {
-		budget = 500000
+		budget = 150000
 	}
 	r := &exRun{t: t, w: w, s: s, budget: int64(evid.Scale(budget))}
 	compare(exFatal{r}, s, m, r.hist)
